@@ -162,6 +162,8 @@ class C11:
                 case["init"].insert(2, {"p": tool, "k": "d", "m": 0o755})
                 case["name"] = b(b"tool/x")
                 case["m_layers"], case["m_name"] = tool, b(b"x")
+            if len(cases) % 7 == 3 and "m_layers" not in case:
+                case["layers_via"] = "dotdot"       # (the layers directory named with a `..` component)
             cases.append(case)
         return cases
 
@@ -199,12 +201,12 @@ class C11:
             n = init[i]
             rest = [m for m in init if not (len(m["p"]) >= len(n["p"]) and m["p"][:len(n["p"])] == n["p"])]
             if len(rest) < len(init):
-                yield {"init": rest, "layers": c["layers"], "name": c["name"], "op": c["op"]}
+                yield dict(c, init=rest)
         for i in range(2, len(init)):
             if init[i]["k"] != "l" and init[i].get("m") not in (0o755, 0o644):
                 new = [dict(m) for m in init]
                 new[i]["m"] = 0o755 if init[i]["k"] == "d" else 0o644
-                yield {"init": new, "layers": c["layers"], "name": c["name"], "op": c["op"]}
+                yield dict(c, init=new)
 
     def sample(self, c, o):
         def sp(p):
